@@ -540,6 +540,19 @@ func (c *Ctx) bin(op Op, a, b *Term) *Term {
 		if b.IsConst() && w <= 64 && b.Val != 0 && b.Val&(b.Val-1) == 0 {
 			return c.bin(OBAnd, a, c.Const(w, b.Val-1))
 		}
+	case OSDiv, OSRem:
+		// both operands known non-negative: same as the unsigned operation
+		if w <= 64 {
+			az, _ := a.Known()
+			bz, _ := b.Known()
+			sb := uint64(1) << uint(w-1)
+			if az&sb != 0 && bz&sb != 0 {
+				if op == OSDiv {
+					return c.bin(OUDiv, a, b)
+				}
+				return c.bin(OURem, a, b)
+			}
+		}
 	}
 	return c.mk(&Term{Op: op, Sort: a.Sort, Args: []*Term{a, b}})
 }
@@ -703,6 +716,13 @@ func (c *Ctx) Extract(a *Term, hi, lo int) *Term {
 		b := a.Big()
 		b.Rsh(b, uint(lo))
 		return c.ConstBig(nw, b)
+	}
+	if w <= 64 {
+		kz, ko := a.Known()
+		sel := mask(nw) << uint(lo)
+		if (kz|ko)&sel == sel {
+			return c.Const(nw, (ko&sel)>>uint(lo))
+		}
 	}
 	switch a.Op {
 	case OExtract:
@@ -935,6 +955,11 @@ func (t *Term) Known() (kz, ko uint64) {
 					kz |= bit
 				}
 			}
+			// magnitude: if the largest possible sum does not wrap, its leading zeros are known
+			ahi, bhi := ^az&m, ^bz&m
+			if sum := ahi + bhi; sum >= ahi && sum <= m {
+				kz |= m &^ mask(bits.Len64(sum))
+			}
 		}
 	case OMul:
 		az, _ := t.Args[0].Known()
@@ -965,7 +990,22 @@ func (t *Term) Known() (kz, ko uint64) {
 // URange gives unsigned bounds implied by known bits.
 func (t *Term) URange() (lo, hi uint64) {
 	kz, ko := t.Known()
-	return ko, ^kz & mask(t.Sort.W)
+	lo, hi = ko, ^kz&mask(t.Sort.W)
+	if t.Op == OAdd && t.Sort.W <= 64 {
+		// interval sum when it cannot wrap
+		alo, ahi := t.Args[0].URange()
+		blo, bhi := t.Args[1].URange()
+		m := mask(t.Sort.W)
+		if s := ahi + bhi; s >= ahi && s <= m {
+			if l := alo + blo; l > lo {
+				lo = l
+			}
+			if s < hi {
+				hi = s
+			}
+		}
+	}
+	return
 }
 
 // ---------- floating point ----------
